@@ -186,12 +186,20 @@ def run(ctx):
     from harness import direct as _direct16
     from skchange.costs import GaussianVarCost as _GV16
     for it in range(ctx.n(2, 8)):
-        n_, p_ = rng.randint(120, 260), rng.choice([3, 4, 6])
+        n_, p_ = rng.randint(240, 360), rng.choice([3, 4, 6])
         mu_, var_ = 2.0, 3.0
         Xg = np.asarray([[rng.gauss(mu_, math.sqrt(var_)) for _ in range(p_)] for _ in range(n_)])
         for _ in range(3):
             a_ = rng.randint(10, n_ - 50)
             Xg[a_:a_ + rng.randint(8, 30), rng.sample(range(p_), rng.randint(1, p_))] += rng.choice([4.0, -5.0, 7.0])
+        # ... and anomalies (strong in column 0) whose OTHER columns carry a moderate shift, with a saving near the per-component penalty 2 scale log(2 p) of a two-parameter
+        # saving -- and hence between it and the 2 scale log(p) a one-parameter count would give
+        for k_ in range(8):
+            a1_ = 12 + k_ * ((n_ - 40) // 8)
+            if a1_ + 20 < n_:
+                Xg[a1_:a1_ + 20, 0] += 5.0
+                for j_ in range(1, p_):
+                    Xg[a1_:a1_ + 20, j_] += rng.choice([-1.0, 1.0]) * rng.uniform(0.8, 1.3)
         # a sensor drop-out: one column reports EXACTLY the same value over a stretch (its sample variance is 0: the variance floor applies to that column, and only to it)
         a0_ = rng.randint(10, n_ - 40)
         Xg[a0_:a0_ + 20, rng.randrange(p_)] = mu_ + 0.5
